@@ -24,13 +24,23 @@ type tdrv struct {
 	stop func()
 	nL   int
 	got  []pr.Dlv
+	// via = "sendto": the out port is used through the convenience wrapper midi.SendTo (which opens the port if it is not
+	// open and hands out a send function) instead of out.Open / out.Send -- the same calls as far as the property goes
+	via    string
+	sendFn func(midi.Message) error
 }
 
-func newT() *tdrv {
+const viaSendTo = "via=sendto"
+
+func newT(note string) *tdrv {
 	d := testdrv.New("verifports")
 	ins, _ := d.Ins()
 	outs, _ := d.Outs()
-	return &tdrv{in: ins[0], out: outs[0]}
+	t := &tdrv{in: ins[0], out: outs[0]}
+	if note == viaSendTo {
+		t.via = "sendto"
+	}
+	return t
 }
 
 func errStr(err error) string {
@@ -50,6 +60,13 @@ func (t *tdrv) Call(fn string, m int, o pr.Opts) string {
 	case "CloseIn":
 		return errStr(t.in.Close())
 	case "OpenOut":
+		if t.via == "sendto" {
+			fn, err := midi.SendTo(t.out)
+			if err == nil {
+				t.sendFn = fn
+			}
+			return errStr(err)
+		}
 		return errStr(t.out.Open())
 	case "CloseOut":
 		return errStr(t.out.Close())
@@ -69,6 +86,9 @@ func (t *tdrv) Call(fn string, m int, o pr.Opts) string {
 		}
 		return "nil"
 	case "Send":
+		if t.sendFn != nil {
+			return errStr(t.sendFn(midi.Message(pr.MsgBytes(m))))
+		}
 		return errStr(t.out.Send(pr.MsgBytes(m)))
 	}
 	hx.Die("unknown call", fn)
@@ -158,11 +178,16 @@ func cmdWalk(args []string) {
 		}
 	}
 	runPath := func(path []edge) {
-		t := newT()
 		h := pr.History{Kind: "testdrv", Events: []string{}}
+		sum := 0
 		for _, e := range path {
 			h.Steps = append(h.Steps, pr.Step{Fn: e.fn, M: e.m})
+			sum = sum*31 + len(e.fn) + e.m
 		}
+		if sum%2 == 1 { // every other history drives the out port through midi.SendTo
+			h.Note = viaSendTo
+		}
+		t := newT(h.Note)
 		okp := pr.Run(t, &h)
 		var lsteps int64
 		mism := !okp
@@ -236,7 +261,7 @@ func cmdRerun(args []string) {
 		if err := json.Unmarshal(l, &h); err != nil {
 			hx.Die(err)
 		}
-		pr.Run(newT(), &h)
+		pr.Run(newT(h.Note), &h)
 		w.Put(&h)
 	})
 	w.Close()
